@@ -134,7 +134,7 @@ func (g *agen) param(i int, where string, shared []string) O {
 			g.Label("param:bad-ref")
 			return O{"$ref": g.Pick([]string{"#/parameters/nope", "#/definitions/d", "#/parameters"})}
 		}
-		if g.cfg.Refs && g.Pct(30) {
+		if g.cfg.Refs && g.Pct(40) {
 			g.Label("ref:parameter")
 			return O{"$ref": g.ref()}
 		}
@@ -173,7 +173,7 @@ func (g *agen) response(where string, shared []string) O {
 			g.Label("response:shared-ref")
 			return O{"$ref": Frag("responses", g.Pick(shared))}
 		}
-		if (g.cfg.Refs || g.cfg.RespDesc) && g.Pct(30) {
+		if (g.cfg.Refs || g.cfg.RespDesc) && g.Pct(35) {
 			g.Label("ref:response")
 			return O{"$ref": g.ref()}
 		}
@@ -287,7 +287,11 @@ func GenAPIDoc(d *D, cfg APICfg) *APICase {
 	if g.layer >= 2 {
 		pathPool = append(pathPool, "/t~d", "/q?x/{id}")
 	}
-	for i := g.Int(0, 4); i > 0; i-- {
+	npaths := g.Int(0, 4)
+	if cfg.Refs && npaths == 0 && g.Pct(80) {
+		npaths = 2
+	}
+	for i := npaths; i > 0; i-- {
 		p := g.Pick(pathPool)
 		if cfg.Refs && g.Pct(15) {
 			g.Label("ref:pathitem")
